@@ -84,6 +84,8 @@ def run(ctx):
     ctx.rule("R15.e", "where deserialize picks a format by len(v) == K, K is the fixed width of the format used on that arm and differs from the other format's width; "
                       "serialize picks the date-only format exactly for type(v) is date", floor=1)
     ctx.rule("R15.f", "object level: serialize_parameters / deserialize_parameters loop over the same names with the same subset filter, call p.serialize / param[name].deserialize, and use plain json.dumps / json.loads", floor=5)
+    ctx.rule("R15.g", "the value handed to the codec is the value attribute access gives: no reader of the per-instance value store conflates an explicit None with 'not set' "
+                      "(one-argument .get(name) followed by an `is None` fallback)", floor=1)
     ctx.not_decided += ["value-level equality of the round trip (years < 1000, non-finite floats, int-vs-float) -- needs execution",
                         "decorator agreement is deliberately NOT armed: DateRange.deserialize lacks @classmethod yet round-trips because it is always called on the Parameter instance"]
 
@@ -200,3 +202,43 @@ def run(ctx):
     (ctx.ok if ok and lds else ctx.fail)("R15.f", sp, sp.node, "serialize_parameters ends in cls.dumps, deserialize_parameters starts from cls.loads" if ok and lds else
                                          "the object-level codec no longer pairs cls.dumps with cls.loads")
     ctx.extra["codec_pairs"] = sorted(overr)
+
+    # the loops are the only route: every store into the result is a codec result
+    for fn, meth in ((sp, "serialize"), (dp, "deserialize")):
+        lp = [st for st in walk_stmts(fn.node) if isinstance(st, ast.For)]
+        stores = [st for l in lp for st in ast.walk(l) if isinstance(st, ast.Assign) and isinstance(st.targets[0], ast.Subscript)]
+        conts = [st for l in lp for st in ast.walk(l) if isinstance(st, ast.Continue)]
+        bypass = []
+        for st in stores:
+            v = st.value
+            if isinstance(v, ast.Name):
+                defs = [d.value for l in lp for d in ast.walk(l) if isinstance(d, ast.Assign) and any(isinstance(t, ast.Name) and t.id == v.id for t in d.targets)]
+                good = bool(defs) and all(isinstance(d, ast.Call) and isinstance(d.func, ast.Attribute) and d.func.attr == meth for d in defs)
+            else:
+                good = isinstance(v, ast.Call) and isinstance(v.func, ast.Attribute) and v.func.attr == meth
+            if not good:
+                bypass.append(st)
+        if bypass or len(conts) > 1:
+            b = bypass[0] if bypass else conts[-1]
+            ctx.fail("R15.f", fn, b, "%s_parameters has a route that bypasses the parameter's own %s (`%s`): values are decoded differently from %s_value / from what the type's codec does" % (
+                meth, meth, norm(b)[:70], meth), key="%s::codec-bypass" % fn.qualname,
+                input="String parameter holding the text 'null' comes back as None through deserialize_parameters")
+        else:
+            ctx.ok("R15.f", fn, lp[0] if lp else fn.node, "every entry of the result is produced by the parameter's %s; the subset filter is the only skip" % meth)
+
+    # ---------------------------------------------------------------- R15.g
+    n_reads = 0
+    for f in ctx.repo.all_funcs("param"):
+        if "_param__private.values" not in ast.unparse(f.node) and ".values.get" not in ast.unparse(f.node):
+            continue
+        aliases = ctx.facts.local_aliases(f)
+        for c in ast.walk(f.node):
+            if isinstance(c, ast.Call) and isinstance(c.func, ast.Attribute) and c.func.attr == "get" and ctx.facts.field_of(c.func.value, aliases) == "private.values":
+                n_reads += 1
+                if len(c.args) + len(c.keywords) >= 2:
+                    ctx.ok("R15.g", f, c, "value-store lookup with an explicit fallback (None stays a value)")
+                else:
+                    ctx.fail("R15.g", f, c, "`%s` returns None both for 'not set on the instance' and for an explicit None: the fallback to the class default replaces a None the user assigned "
+                                            "(serialize_parameters then emits the default instead of null)" % norm(c), key="%s::none-as-absent" % f.qualname,
+                             input="Integer(default=7, allow_None=True); obj.x = None; serialize_parameters() -> 7")
+    ctx.require(n_reads >= 1, "no .get() read of the per-instance value store found")
